@@ -282,3 +282,39 @@ func paramOrderSweep() []piece {
 	}
 	return ps
 }
+
+// The limits of Go's two integer representations (slip.Fixnum = int64 inside -2^63 .. 2^63-1, *slip.Bignum outside;
+// Model.go_repr) and of the narrower machine widths, with their neighbours on both sides and both signs, handed to
+// every directive that renders an integer: the handlers switch on the representation (dirR, dirInt, dirP, dirCond) and
+// anything computed on the int64 value (a sign, a magnitude, a comparison) behaves differently exactly here.
+// Enumerated, the same on every run.
+func representationLimits() []*big.Int {
+	var zs []*big.Int
+	one := big.NewInt(1)
+	for _, k := range []uint{31, 32, 53, 63, 64} {
+		span := int64(1)
+		if k == 63 {
+			span = 2
+		}
+		p := new(big.Int).Lsh(one, k)
+		for d := -span; d <= span; d++ {
+			z := new(big.Int).Add(p, big.NewInt(d))
+			zs = append(zs, z, new(big.Int).Neg(z))
+		}
+	}
+	return zs
+}
+
+func limitSweep() []piece {
+	var ps []piece
+	dirs := []string{"~R", "~:R", "~@R", "~:@R", "~D", "~:D", "~@D", "~B", "~:O", "~X", "~10R", "~36:R",
+		"~24,'*,'_,4:D", "~A"}
+	for _, z := range representationLimits() {
+		for _, d := range dirs {
+			ps = append(ps, piece{d + "|", []val{vBig(z)}})
+		}
+		// the same integer read twice, by the English and by the decimal writer; the plural of it
+		ps = append(ps, piece{"~R=~:*~D ~:*~P", []val{vBig(z)}})
+	}
+	return ps
+}
